@@ -101,7 +101,7 @@ def composite(m):
 
 def shapes_d2(tier):
     out = []
-    for e in shapes_d1() + [cha('char', 3), cha('int', 2), cha('char', None) if False else cha('ushort', 2)]:
+    for e in [x for x in shapes_d1() if not (x[0] == 'arr' and x[2] is None)] + [cha('char', 3), cha('int', 2), cha('ushort', 2)]:
         for n in ((1, 2, 3, None) if tier == "thorough" else (2, None)):
             out.append(arr(e, n))
     for k in (1, 2):
@@ -345,6 +345,8 @@ def dump_expr(var, acc, lt):
         return "(long)(%s * 16)" % e
     if kind == 'ptr':
         return "FN(pdec)((void *)%s)" % e
+    if kind == 'bool' and lt[0] == 'bf':
+        return "(long)(%s != 0)" % e      # reading a _Bool bit-field is C04's subject; only zero/non-zero is observed here
     return "(long)%s" % e
 
 
@@ -553,10 +555,10 @@ def type_features(t):
         elif k == 'arr':
             if t[2] is None:
                 f.add('flexarr' if depth else 'unknown-bound')
-            f.add('array-in-aggregate' if depth else 'array')
+            f.add('array')
             go(t[1], depth + 1, False)
         else:
-            f.add(('struct' if k == 'st' else 'union') + ('-nested' if depth else ''))
+            f.add('struct' if k == 'st' else 'union')
             for n, mt in t[1]:
                 if n is None:
                     f.add('anon-' + ('struct' if mt[0] == 'st' else 'union'))
